@@ -11,7 +11,7 @@
      SUBSTR s e | lengths | linework              -> total ; line ; line ..    each line = points  x,y  separated by blanks
      MERGE d | ins | outs                         -> units nodes points
      NODE tn td | ins | outs                      -> disjoint kernel in_on_out out_near_in cover_in cover_out
-     POLY | ins | polys | dangles | cuts | invalid -> nodup valid sides edges account dangles cuts
+     POLY | ins | polys | dangles | cuts | invalid -> nodup valid sides edges account dangles cuts disjoint
      SHARED | g1 | g2 | fw | bw                   -> ok *)
 let zs = z_of_string
 let rec pos_of_z z = match z with Zpos p -> p | _ -> XH
@@ -79,7 +79,7 @@ let () =
          | ["POLY"], [i; p; d; c; r] ->
            let i = lines_of i and p = polys_of p and d = lines_of d and c = lines_of c and r = lines_of r in
            print_endline (String.concat " " (List.map b2s [nodup_segb (useg i); polyg_valid_ok p; polyg_sides_ok p; polyg_edges_in i p;
-                                                            polyg_account_ok i p d c r; polyg_dangles_ok i d; polyg_cuts_ok i c]))
+                                                            polyg_account_ok i p d c r; polyg_dangles_ok i d; polyg_cuts_ok i c; polyg_disjoint_ok p]))
          | ["SHARED"], [a; b; f; w] ->
            print_endline (b2s (shared_check (lines_of a) (lines_of b) (lines_of f) (lines_of w)))
          | _ -> print_endline "?")
